@@ -13,7 +13,8 @@ def run(ctx, res):
         "that + 1, so a seam formatter never reaches beyond the blank run (at most the blank lines) adjacent to the seam; "
         "(R4) the block formatter's ranges are clamped per line by min(_, first non-blank); (R5) merging two formatter ranges never covers a "
         "position outside both (complete table over endpoint orderings, sorted or not); (R6) the cleaned text is only ever changed by deleting ranges, back to "
-        "front (no normalisation pass); (R7) the block formatter is handed the right head/tail pair (pair indices).  Decides these clauses, not the "
+        "front (no normalisation pass); (R7) the block formatter is handed the right head/tail pair (pair indices); (R8) the positions the formatters are asked about are the seams: "
+        "get_removed_pos emits, per marker and in order, marker.start minus the total length of the markers before it.  Decides these clauses, not the "
         "verbatim survival of every stretch.")
     res.trusted += ["driver fact extraction and the abstract interpreter"]
     deletion.scanner_tables(ctx, res, "C14.R1")
@@ -24,3 +25,20 @@ def run(ctx, res):
     deletion.sinks(ctx, res, "C14.R6", "C14.R6b")
     from . import c12
     c12.pair_indices(ctx, res, "C14.R7")
+    seam_positions(ctx, res, "C14.R8")
+
+
+def seam_positions(ctx, res, rule):
+    """The formatters act where text was removed: position k = marker_k.start - sum(len(marker_j), j < k), one per marker."""
+    from .. import tree as T
+    from ..report import Finding
+    from . import c01_premises, fshort
+    b = ctx.lib.fn("remover::get_removed_pos")
+    fn = fshort(b)
+    for site, prem in (("running-total", c01_premises.grp_removed_len), ("one-position-per-marker", c01_premises.fmt_pair_indices)):
+        ok, why = prem(ctx)
+        if ok:
+            res.holds(rule, fn, site, why)
+        else:
+            res.add(Finding(rule, fn, site, "the positions handed to the formatters are not the seams of the removals (whitespace would be "
+                            "tidied away from the removal): " + why, loc=T.loc(b["tree"])))
